@@ -27,6 +27,7 @@ DEFAULT = {
     "p_q": 0.3,            # second filter-restricted state q
     "p_b_in_filter": 0.3,  # the filter also restricts the discrete choice b
     "p_reduction_aux": 0.2,   # an auxiliary function written as jnp.sum(jnp.array([...])), used by utility only
+    "p_dead_label": 0.0,       # (models without continuous state) the last label of h admits no choice: value -inf, reachable
     "p_state_only_filter": 0.15,  # the filter restricts states only: no restricted choice, every discrete choice unrestricted
     "p_choice_filter": 0.25,  # an additional filter over the restricted choice a (and the period) only
     "p_state_filter": 0.2, # additional filter on the state r alone
@@ -427,6 +428,11 @@ def _rand_model_once(rng, P):  # noqa: C901, PLR0912, PLR0915
         params.setdefault("shocks", {})["e"] = _rows(rng, shape, ne, bool(P.get("onehot")) and rng.random() < 0.8)
         params["next_e"] = {}
         feat["F17"] = h_stoch
+    if has_h and not h_stoch and not (has_w or has_z) and has("p_dead_label"):
+        # a dead-end label: no choice is feasible there, the state is reachable through next_h = min(nh-1, max(h, choice))
+        funcs.append(mkfunc("alive_constraint", "constraint", ["h"], ["le", var("h"), const(nh - 2)]))
+        params["alive_constraint"] = {}
+        feat["dead_end_label"] = True
     if has_b and has_h and has("p_dense_constraint"):
         funcs.append(mkfunc("d_constraint", "constraint", _shuf(rng, ["b", "h"], P), ["le", var("b"), add(var("h"), const(1))]))
         params["d_constraint"] = {}
